@@ -40,6 +40,26 @@ def cond_sym(F, body, node):
         it.fields["self." + nm] = sym.S(nm)
     for nm in ("one_tenth", "four", "two", "half"):
         it.fields["self." + nm] = sym.S(nm)
+    # plain lets in front of the condition that only read fields (`let (start, end) = (self.time.real(), self.end.real())`): bound so that the condition can be
+    # read through them; anything that may write a field in between makes what was bound so far stale, and it is forgotten
+    try:
+        prior = cfg.preceding_statements(body["body"], node)
+    except Exception:
+        prior = []
+    for st in prior:
+        if st.get("k") == "LetS" and "init" in st and "els" not in st and not any(
+                x.get("k") in ("Try", "Closure", "Assign", "AssignOp", "Ret", "Loop", "While", "For", "Macro") or (x.get("k") == "Call" and "ovl" in x)
+                or (x.get("k") == "MCall" and x["name"] not in ("real", "clone", "to_owned", "abs", "modulus", "min", "max")) or (x.get("k") == "Call" and "ovl" not in x and x.get("args"))
+                for x in walk(st["init"])):
+            try:
+                it.run_stmt(st)
+            except Exception:
+                pass
+        elif any(x.get("k") in ("Assign", "AssignOp") or (x.get("k") == "MCall" and place(x.get("recv") or {}) == "self") or (x.get("k") == "Ref" and x.get("mut"))
+                 for x in walk(st, into_closures=False)):
+            it = nalg.NInterp(F, body, {})
+            for nm in ("time", "dt", "end", "tolerance", "dt_max", "dt_min", "one_tenth", "four", "two", "half"):
+                it.fields["self." + nm] = sym.S(nm)
     try:
         return it.ev(node)
     except sym.Unsupported:
@@ -257,8 +277,44 @@ def classify_dt_write(F, body, n, strict=False):
     return "grow", "dt := %s" % r
 
 
+def min_form(F, body, w):
+    """Is the write `w` one branch of `if X > dt_max { dt = dt_max } else { dt = X }` (dt := min(X, dt_max), the grow-then-clamp pair computed before it is stored)?
+    -> "clamp" / "grow" (which branch w is) or None."""
+    pm = cfg.parent_map(body["body"])
+    par = None
+    for a in cfg.ancestors(pm, w):
+        if a.get("k") == "If":
+            par = a
+            break
+        if a.get("k") not in ("ExprS", "Semi", "Block"):
+            return None
+    if par is None or "e" not in par:
+        return None
+
+    def only_write(br):
+        ws = [x for x in walk(br, into_closures=False) if x.get("k") in ("Assign", "AssignOp")]
+        if len(ws) != 1 or ws[0].get("k") != "Assign" or place(ws[0]["l"]) != "self.dt" or any(x.get("k") == "Ret" for x in walk(br, into_closures=False)):
+            return None
+        return ws[0]
+    wt, we = only_write(par["t"]), only_write(par["e"])
+    if wt is None or we is None or (w is not wt and w is not we):
+        return None
+    c = cond_sym(F, body, par["c"])
+    vt, ve = cond_sym(F, body, wt["r"]), cond_sym(F, body, we["r"])
+    if not isinstance(c, (sp.Gt, sp.Ge)) or vt is None or ve is None:
+        return None
+    try:
+        if sym.is_zero(vt - sym.S("dt_max")) and sym.is_zero(c.rhs - sym.S("dt_max")) and sym.is_zero(c.lhs - ve):
+            return "clamp" if w is wt else "grow"
+    except Exception:
+        return None
+    return None
+
+
 def followed_by_clamp(F, body, w):
     """Is the write `w` followed, before any return, by `if dt > dt_max { dt = dt_max }` (or dt := min(dt, dt_max))?"""
+    if min_form(F, body, w) == "grow":
+        return True
     pm = cfg.parent_map(body["body"])
     chain = [w] + cfg.ancestors(pm, w)
     for child, par in zip(chain[:-1], chain[1:]):
@@ -330,6 +386,7 @@ def check_dt_writes(F, run, sname, b):
             # dt := dt_max must be under dt > dt_max
             okg = any(l[2] is True and isinstance(cond_sym(F, b, l[1]), (sp.Gt, sp.Ge)) and
                       sym.is_zero((cond_sym(F, b, l[1]).lhs - cond_sym(F, b, l[1]).rhs) - (sym.S("dt") - sym.S("dt_max"))) for l in cfg.conj_lits(g))
+            okg = okg or min_form(F, b, n) == "clamp"
             run.check(okg, "R1.3", dp, "clamp-guard:" + inst, F.loc(b, n), "`dt = dt_max` is not under `dt > dt_max`: it can enlarge the step", sample="clamp: " + pp(n))
         elif cls == "clip":
             # dt := (end-time)/m under time + m·dt >= end  ⇒ new dt <= old dt
